@@ -99,6 +99,15 @@ def _case(draw):
     if zero_exc:
         fam["tweaks"].append({"kind": "const-kerning", "indices": [1], "master": -1})
         case["constant_zero_exception"] = True
+    if case["varfea"] and not zero_exc and draw(st.sampled_from([True, False, False])):
+        # values that move by exactly one unit between masters (variable features): the class pair and the first anchored glyph's anchor
+        anch = [g["name"] for g in spec["glyphs"] if g["name"] in lat and g.get("anchors")]
+        fam["tweaks"].append({"kind": "unit-step", "master": -1, "kerning": [0], "anchors": anch[:1]})
+        for k_ in list(fam.get("drop_kerning", {})):
+            fam["drop_kerning"][k_] = [j for j in fam["drop_kerning"][k_] if j != 0]
+            if not fam["drop_kerning"][k_]:
+                del fam["drop_kerning"][k_]
+        case["unit_step"] = True
     if case["varfea"] and len(lat) >= 4 and draw(st.sampled_from([True, False, False])):
         # kerning groups that only one non-default master defines, with a pair between them
         fam["tweaks"].append({"kind": "extra-groups", "master": draw(st.integers(1, len(masters) - 1)), "groups": {"public.kern1.x": [lat[2]], "public.kern2.x": [lat[0]]},
@@ -297,6 +306,8 @@ def run_case(case, ctx):
         ctx.label("master-without-any-kerning")
     if case.get("group_pair_dropped"):
         ctx.label("group-pair-missing-in-a-non-default-master")
+    if case.get("unit_step"):
+        ctx.label("values-moving-by-one-unit-between-masters")
     if case.get("constant_zero_exception"):
         ctx.label("constant-zero-exception-over-class-pair")
     if case.get("groups_in_one_master_only"):
